@@ -992,5 +992,5 @@ func checkEarlyStopIsError(c *Ctx) {
 			}
 		}
 	}
-	c.Check(loops >= 2 && exits >= 2, "R16.9", "gitlabImporter.ImportAll:loops-found", w.FnPos(fn), fmt.Sprintf("%d channel loops, %d early exits, each reported", loops, exits), fmt.Sprintf("%d channel loops and %d early exits found (reference: 2 loops, 2 exits)", loops, exits))
+	c.Check(loops >= 1, "R16.9", "gitlabImporter.ImportAll:loops-found", w.FnPos(fn), fmt.Sprintf("%d channel loops, %d early exits, each reported", loops, exits), "no loop over a listing channel found in the importer's goroutine")
 }
